@@ -26,6 +26,7 @@ func init() {
 	wrap("C08", extra11C08)
 	wrap("C05", extra11C05)
 	wrap("C19", extra11C19)
+	wrap("C10", extra11C10)
 	wrap("C02", extra11C02)
 	wrap("C15", extra11C15)
 	wrap("C07", extra11C07)
@@ -677,6 +678,69 @@ func extra11C13(c *Ctx) {
 		n += 0
 	}
 	c.Expect(rule, "cutLastAny assignments in names.Parse", n, 2)
+
+	rule = "C13-R12"
+	c.Rule(rule, "what Parse accepts, String can print: Name.String leaves empty parts out, so a name with a host and no namespace prints as `h/m`, which reads back with h as the namespace — in names.Parse every return of the name built in the slash case is past a test of the namespace part for emptiness from which the zero Name is returned (`h//m` is refused)")
+	g := c.G(f)
+	var fNS *types.Var
+	if fNS = c.P.LookupField(namesPkg, "Name", "n"); fNS == nil {
+		c.Undecided(rule, "anchor:names.Name.n", "-", "anchor lost")
+		return
+	}
+	nRet := 0
+	for _, ex := range g.Returns() {
+		if len(ex.Return.Results) != 1 {
+			continue
+		}
+		if _, isLit := ast.Unparen(ex.Return.Results[0]).(*ast.CompositeLit); isLit {
+			continue
+		}
+		// only the returns of the case that assigned host and namespace
+		var inSlash *ast.CaseClause
+		for _, anc := range ancestorsOf(f.Body, ex.Return) {
+			if cc, isCC := anc.(*ast.CaseClause); isCC {
+				for _, st := range cc.Body {
+					if as, isAs := st.(*ast.AssignStmt); isAs {
+						for _, l := range as.Lhs {
+							if se, isSel := l.(*ast.SelectorExpr); isSel && core.FieldVar(info, se) == fNS {
+								inSlash = cc
+							}
+						}
+					}
+				}
+			}
+		}
+		if inSlash == nil {
+			continue
+		}
+		nRet++
+		ok := false
+		for _, cb := range g.CondBlocks() {
+			if cb.Cond == nil || !within(inSlash, cb.Cond) {
+				continue
+			}
+			tests := false
+			ast.Inspect(cb.Cond, func(m ast.Node) bool {
+				if se, isSel := m.(*ast.SelectorExpr); isSel && core.FieldVar(info, se) == fNS {
+					tests = true
+				}
+				return true
+			})
+			cl := g.CondLoc(cb.B)
+			if !tests || !g.Dominates(cl, ex.Loc) {
+				continue
+			}
+			for _, zr := range g.Returns() {
+				if len(zr.Return.Results) == 1 {
+					if _, isLit := ast.Unparen(zr.Return.Results[0]).(*ast.CompositeLit); isLit && g.ReachesAvoiding(cl, zr.Loc, ex.Loc) && within(inSlash, zr.Return) {
+						ok = true
+					}
+				}
+			}
+		}
+		c.Check(rule, f.Key()+" host without namespace refused", c.Pos(ex.Return), ok, "the name of the slash case is returned without a test of its namespace part that can refuse: `h//m` is accepted and prints as `h/m`")
+	}
+	c.Expect(rule, "returns of the slash case of names.Parse", nRet, 1)
 }
 
 // ---------------------------------------------------------------------------------- C04
@@ -812,4 +876,124 @@ func extra11C11(c *Ctx) {
 		}
 		c.Check(rule, f.Key()+" fit question after the context was scaled", c.Pos(h.Node), dom, "maybeFindCPURunnerToUnload is asked before opts.NumCtx holds the scaled value")
 	}
+}
+
+// ---------------------------------------------------------------------------------- C10
+
+func extra11C10(c *Ctx) {
+	rule := "C10-R18"
+	c.Rule(rule, "an uploaded adapter's tensor of any rank converts or fails, it does not panic: in the Tensors methods of the LoRA adapter converters every index of a tensor's shape beyond the first element, and every installation of a repacker (the repackers index two dimensions), is on an edge where the length of that shape was compared with a sufficient constant — the shape comes from the safetensors header of the uploaded file and the conversion runs in the create goroutine, outside gin's recovery")
+	n := 0
+	for _, name := range []string{"llamaAdapter.Tensors", "gemma2Adapter.Tensors"} {
+		f := c.Fn(rule, "convert", name)
+		if f == nil {
+			continue
+		}
+		info := f.Info()
+		g := c.G(f)
+		// locals that hold a Shape() result
+		shapes := map[types.Object]bool{}
+		ast.Inspect(f.Body, func(nd ast.Node) bool {
+			if as, ok := nd.(*ast.AssignStmt); ok && len(as.Lhs) == 1 && len(as.Rhs) == 1 {
+				if call, isC := ast.Unparen(as.Rhs[0]).(*ast.CallExpr); isC && strings.HasSuffix(core.CalleeName(info, call), ".Shape") {
+					if id, isId := as.Lhs[0].(*ast.Ident); isId {
+						shapes[info.ObjectOf(id)] = true
+					}
+				}
+			}
+			return true
+		})
+		type fact struct {
+			Expr ast.Expr
+			Val  bool
+		}
+		lenAtLeast := func(at ast.Node, need int64) bool {
+			var facts []fact
+			for _, a := range g.AtomsAt(g.Locate(at)) {
+				facts = append(facts, fact{a.Expr, a.Val})
+			}
+			// inside one condition: the left conjuncts of every && the node sits to the right of
+			for _, anc := range ancestorsOf(f.Body, at) {
+				if be, isB := anc.(*ast.BinaryExpr); isB && be.Op == token.LAND && within(be.Y, at) {
+					var split func(e ast.Expr)
+					split = func(e ast.Expr) {
+						e = ast.Unparen(e)
+						if b2, isB2 := e.(*ast.BinaryExpr); isB2 && b2.Op == token.LAND {
+							split(b2.X)
+							split(b2.Y)
+							return
+						}
+						facts = append(facts, fact{e, true})
+					}
+					split(be.X)
+				}
+			}
+			for _, a := range facts {
+				be, isB := ast.Unparen(a.Expr).(*ast.BinaryExpr)
+				if !isB {
+					continue
+				}
+				x, op, y := be.X, be.Op, be.Y
+				if _, isC := core.ConstInt(info, x); isC {
+					x, y, op = y, x, flip(op)
+				}
+				lc, isL := ast.Unparen(x).(*ast.CallExpr)
+				v, isC := core.ConstInt(info, y)
+				if !isL || !isC || core.CalleeName(info, lc) != "builtin.len" || len(lc.Args) != 1 {
+					continue
+				}
+				if id, isId := ast.Unparen(lc.Args[0]).(*ast.Ident); !isId || !shapes[info.Uses[id]] {
+					// len(t.Shape()) counts as well
+					if call, isCall := ast.Unparen(lc.Args[0]).(*ast.CallExpr); !isCall || !strings.HasSuffix(core.CalleeName(info, call), ".Shape") {
+						continue
+					}
+				}
+				if !a.Val {
+					switch op {
+					case token.NEQ:
+						op = token.EQL
+					case token.LSS:
+						op = token.GEQ
+					case token.LEQ:
+						op = token.GTR
+					default:
+						continue
+					}
+				}
+				switch op {
+				case token.EQL, token.GEQ:
+					if v >= need {
+						return true
+					}
+				case token.GTR:
+					if v+1 >= need {
+						return true
+					}
+				}
+			}
+			return false
+		}
+		ast.Inspect(f.Body, func(nd ast.Node) bool {
+			switch x := nd.(type) {
+			case *ast.IndexExpr:
+				id, isId := ast.Unparen(x.X).(*ast.Ident)
+				if !isId || !shapes[info.Uses[id]] {
+					return true
+				}
+				k, isC := core.ConstInt(info, x.Index)
+				if !isC || k < 1 {
+					return true
+				}
+				n++
+				c.Check(rule, f.Key()+" shape index behind a length test", c.Pos(x), lenAtLeast(x, k+1), "`"+core.ExprString(x)+"` is evaluated without the shape's length having been compared with "+itoa(int(k+1)))
+			case *ast.CallExpr:
+				if strings.HasSuffix(core.CalleeName(info, x), ".SetRepacker") {
+					n++
+					c.Check(rule, f.Key()+" repacker installed for matrices only", c.Pos(x), lenAtLeast(x, 2), "a repacker that indexes two dimensions is installed for a tensor whose rank was not tested")
+				}
+			}
+			return true
+		})
+	}
+	c.Expect(rule, "shape indexes and repacker installations in the adapter converters", n, 8)
 }
